@@ -225,6 +225,9 @@ impl Out {
         self.w.write_all(b"\n").unwrap();
         self.n += 1;
     }
+    pub fn flush(&mut self) {
+        self.w.flush().unwrap();
+    }
     pub fn finish(mut self) {
         self.w.flush().unwrap();
     }
